@@ -921,7 +921,8 @@ class FelicaLiteS(FelicaLite):
             # Now read the state block and check the value of the
             # ext_auth to see if we are authenticated. If it's 01h
             # then we are, otherwise not.
-            if self.read_with_mac(0x92)[0] == 0x01:
+            state = self.read_with_mac(0x92)
+            if state is not None and state[0] == 0x01:
                 log.debug("mutual authentication completed")
                 self._authenticated = True
                 self.read_from_ndef_service = self.read_with_mac
